@@ -218,7 +218,7 @@ theorem step_excl (n : Nat) (s s' : LSt) (l : LLabel) (h : lstep n s l = some s'
             have hfree : ∀ o u, s.store cl.part = some (o, u) → u ≤ s.now := by
               intro o u hs
               have := hg.2
-              simp only [storeFree, hs, decide_eq_true_eq] at this
+              simp only [storeFree, freeAt, hs, decide_eq_true_eq] at this
               exact this
             refine ⟨⟨?_, ?_, ?_, ?_⟩, ?_⟩
             · intro j p hp
